@@ -111,6 +111,11 @@ def _work_inner(seed):
     force = {"cap_evals": 1200, "wrappers": rng.choice(["none", "counting", "none"])}
     if rng.random() < 0.15:
         force.update(objective_kind="nanhole", box=[[-5.0, 5.0], [-5.0, 5.0]], dim=2)
+    deep_tree = rng.random() < 0.3
+    if deep_tree:
+        # three levels whose middle demes keep running and keep sprouting: children of different parents interleave on the leaf level
+        force.update(height=3, sprout={"kind": "simple", "far": 0.0, "level_limit": rng.choice([3, 4])}, gsc={"kind": "MetaepochLimit", "n": 16},
+                     levels_patch=[{"lsc": {"kind": "DontStop"}}, {"lsc": {"kind": "DontStop"}}, {}], cap_evals=4000)
     spec = gen.gen_spec(seed, **force)
     if rng.random() < 0.5 and not any(l["engine"] == "SEAWithAdaptiveMutation" for l in spec["levels"]):
         spec["hibernation"] = True
@@ -128,7 +133,7 @@ def _work_inner(seed):
     try:
         cfg, info = gen.build(spec, objective_wrapper=ow)
         tree = tree_mod.DemeTree(cfg)
-        target = rng.randint(0, 6)
+        target = rng.randint(4, 9) if deep_tree else rng.randint(0, 6)
         steps = 0
         loaded = None
         replaced = False
